@@ -311,6 +311,11 @@ func (r *Raft) onInstallSnapRequest(req *installSnapReq, c *conn) (rpcResult, er
 		return unexpectedErr, opError(doneErr, "snapshotSink.done")
 	}
 
+	// fsm may still be working through queued fsmApply requests, whose
+	// log views point into the segments we are about to close and remove.
+	// fsm.ch is fifo: wait until fsm has consumed all of them
+	r.lastApplied()
+
 	discardLog := true
 	if r.storage.log.Contains(meta.index) {
 		metaTerm, err := r.storage.getEntryTerm(meta.index)
